@@ -435,7 +435,11 @@ def check(pid, tier, seed):
                 internal.append("replay %s: %s" % (tape, msg))
         for tape, f in open_tapes.items():
             st, key, msg, _ = replay(binpath, tape, flags + ["--no-exclude"])
-            if st == 1 and coarse(key) == coarse(f.get("failure_key", key)):
+            # an open finding is identified by its failure key and, for sanitizer reports, by the functions that must be
+            # on the reported stack (the call site): anything else failing on that tape is a different violation
+            same = st == 1 and coarse(key) == coarse(f.get("failure_key", key)) and \
+                all(fn in msg for fn in f.get("stack_contains", []))
+            if same:
                 known_lines.append("KNOWN-FINDING: property=%s %s" % (pid, f["what"]))
             elif st == 1:
                 violations.append((tape, key, msg, ex["name"]))
